@@ -1,8 +1,10 @@
 //! vf-prune: statistics pruning (C22) and interval arithmetic / constraint propagation (C23).
 mod c22;
+mod c23;
 
 fn main() {
     vf_kit::dispatch! {
         "c22" => c22::C22,
+        "c23" => c23::C23,
     }
 }
